@@ -615,6 +615,21 @@ func (fc *FnCtx) applyContract(st *State, ct *FuncContract, fn *types.Func, cpos
 			fc.axiom(lt(sv.Rgn, st.nextR))
 		}
 	}
+	// pointer results that address a slice element
+	for _, ep := range ct.ElemPtrs {
+		env := &specEnv{fc: fc, st: st, old: pre, bind: bind, callee: ct, keepSlice: true}
+		sv, ok := env.eval(ep.Slice).(VSlice)
+		if !ok {
+			panic(unsupported("elemptr " + ep.Res + ": not a slice"))
+		}
+		ev := VElemPtr{sv, asInt(env.eval(ep.Idx))}
+		bind[ep.Res] = ev
+		for i, n := range rn {
+			if n == ep.Res {
+				res[i] = ev
+			}
+		}
+	}
 	for _, cl := range ct.Ensures {
 		if mentionsGhost(cl.Expr, ct) {
 			continue // a clause over the callee's own ghost state says nothing a caller can use
@@ -667,6 +682,14 @@ func (fc *FnCtx) applyModifies(st *State, ct *FuncContract, bind map[string]Val,
 	var rgns []T
 	var wins []heapWindow
 	var newRgns []T
+	cellsModified := false
+	defer func() {
+		if cellsModified {
+			// the byte buffers the elements point at are owned by the slice: writing them touches no byte region
+			// the caller can name
+			fc.assumptions["the key/value buffers of []argsKV entries are owned by their slice (not shared with any other slice)"] = true
+		}
+	}()
 	for _, m := range ct.Modifies {
 		v, l, ok := fc.specLoc(st, m, bind)
 		if !ok {
@@ -678,6 +701,10 @@ func (fc *FnCtx) applyModifies(st *State, ct *FuncContract, bind map[string]Val,
 				// a slice-typed field: the field itself may be reassigned and its region written
 				nv := fc.freshVal(l.typ, "mod")
 				fc.storeLoc(st, *l, nv)
+				if isCellType(x.Elem) {
+					st.cheap = fc.fresh("C", SHeap)
+					cellsModified = true
+				}
 				if isByteElem(x.Elem) {
 					rgns = append(rgns, x.Rgn)
 					// the new value is the old backing array or a newly allocated one
@@ -686,6 +713,12 @@ func (fc *FnCtx) applyModifies(st *State, ct *FuncContract, bind map[string]Val,
 						newRgns = append(newRgns, ns.Rgn)
 					}
 				}
+				break
+			}
+			if isCellType(x.Elem) {
+				// a slice of cell-encoded structs: its cells (and the bytes its elements point at) may be rewritten
+				st.cheap = fc.fresh("C", SHeap)
+				cellsModified = true
 				break
 			}
 			if !isByteElem(x.Elem) {
@@ -752,6 +785,9 @@ func (fc *FnCtx) collectRegions(v Val, out *[]T) {
 func (fc *FnCtx) havocHeap(st *State, rgns []T) {
 	old := st.heap
 	st.heap = fc.fresh("H", SHeap)
+	if rgns == nil && len(cellTypes) > 0 {
+		st.cheap = fc.fresh("C", SHeap) // "anything may have been written" includes the cells
+	}
 	if rgns != nil {
 		fc.nfr++
 		r := T{fmt.Sprintf("r!%d", fc.nfr), SInt}
